@@ -25,3 +25,25 @@ Print Assumptions C14_refuse_iff_not_relevant.
 Theorem C14_borda_relevant_iff : forall s, nonneg s -> (borda_relevant s = true <-> in_borda_family s).
 Proof. exact borda_relevant_iff. Qed.
 Print Assumptions C14_borda_relevant_iff.
+
+(** the test the judge applies to what a computation returned ([code_of], Judge/JC14.v) is sound: code 0 means exactly one ranking came
+    back and it is a ranking with ties of the whole universe, without repetition and without an empty bucket *)
+From Corankco Require Import OptTheory Partition PartitionProof Judge.JC14.
+Lemma distinct_NoDup : forall l, distinct l = true -> NoDup l.
+Proof.
+  induction l as [|x l IH]; cbn [distinct]; intros H; [constructor|].
+  apply andb_true_iff in H as [H1 H2]. constructor; [|apply IH; exact H2].
+  intros I. apply mem_In in I. rewrite I in H1. discriminate.
+Qed.
+Theorem C14_returned_test_sound : forall U cs, code_of (OReturned U cs) = 0 ->
+  exists c, cs = [c] /\ wfU U c /\ NoDup (elems c) /\ Forall (fun b => b <> []) c.
+Proof.
+  intros U cs H. cbn [code_of] in H.
+  destruct (Nat.eqb (length cs) 1 && distinct U && forallb (fun c => is_partition_of U c && distinct (elems c)) cs) eqn:E; [|discriminate].
+  apply andb_true_iff in E as [E F]. apply andb_true_iff in E as [L DU]. apply Nat.eqb_eq in L.
+  destruct cs as [|c [|c' cs]]; try discriminate. exists c. split; [reflexivity|].
+  cbn [forallb] in F. rewrite andb_true_r in F. apply andb_true_iff in F as [P Dc].
+  destruct (is_partition_of_spec U c (distinct_NoDup U DU) P) as [W N].
+  split; [exact W|]. split; [apply distinct_NoDup; exact Dc|exact N].
+Qed.
+Print Assumptions C14_returned_test_sound.
